@@ -61,11 +61,11 @@ func prelude() {
 		for i := range run {
 			run[i] = int32(i)
 		}
-		quiet(func() { flip64(bitmap.Of(run)) })                         // a leading run 0..k-1
-		quiet(func() { flip64(bitmap.Of(append(run, k+3))) })            // ... plus one more position
-		quiet(func() { flip64(bitmap.Of(append(run, 63))) })             // ... inside one word
-		quiet(func() { flip64(bitmap.Of(run, k)) })                      // ... with the size given
-		quiet(func() { flip64(bitmap.Of([]int32{k})) })                  // a single position
+		quiet(func() { flip64(bitmap.Of(run)) })                            // a leading run 0..k-1
+		quiet(func() { flip64(bitmap.Of(append(run, k+3))) })               // ... plus one more position
+		quiet(func() { flip64(bitmap.Of(append(run, 63))) })                // ... inside one word
+		quiet(func() { flip64(bitmap.Of(run, k)) })                         // ... with the size given
+		quiet(func() { flip64(bitmap.Of([]int32{k})) })                     // a single position
 		quiet(func() { flip64(bitmap.OfMany([][]int32{run}, []int32{k})) }) // one completely filled sub-bitmap
 		if k > 1 {
 			a, b := run[:k/2], make([]int32, k-k/2)
